@@ -309,6 +309,9 @@ func (ex *Exec) loadVar(o *types.Var) Val {
 		}
 		return Val{Select(ex.get(ex.st, ex.ptrHeapKey(o.Type())), ref), o.Type()}
 	}
+	if ex.isSR(o) {
+		return Val{ex.srAssemble(ex.st, o), o.Type()}
+	}
 	t, ok := ex.st.env[key]
 	if !ok {
 		// captured variable from an enclosing scope we did not execute, or unassigned
@@ -326,6 +329,16 @@ func (ex *Exec) evalSelector(e *ast.SelectorExpr) Val {
 		case types.FieldVal:
 			if ref, ok := ex.boxedStructRef(e.X); ok {
 				return ex.fieldPath(Val{ref, types.NewPointer(ex.typeOf(e.X))}, sel.Index(), exprString(e.X))
+			}
+			if o := ex.srVar(e.X); o != nil {
+				// field of a scalar-replaced local struct variable
+				st := structOf(o.Type())
+				f := st.Field(sel.Index()[0])
+				v := Val{ex.srGet(ex.st, o, f), f.Type()}
+				if len(sel.Index()) > 1 {
+					return ex.fieldPath(v, sel.Index()[1:], exprString(e.X)+"."+f.Name())
+				}
+				return v
 			}
 			base := ex.eval(e.X)
 			return ex.fieldPath(base, sel.Index(), exprString(e.X))
@@ -995,3 +1008,69 @@ func (ex *Exec) convert(v Val, target types.Type, label string) Val {
 }
 
 var _ = fmt.Sprint
+
+// ---- scalar replacement of local struct variables ----
+// A local variable of struct type whose address is not taken is kept as one env entry per field,
+// so that loops and branches only affect the fields that are actually assigned.
+
+func (ex *Exec) isSR(o *types.Var) bool {
+	if o == nil || ex.boxed[o] {
+		return false
+	}
+	if o.Pkg() != nil && o.Parent() == o.Pkg().Scope() {
+		return false
+	}
+	_, ok := o.Type().Underlying().(*types.Struct)
+	return ok
+}
+
+func (ex *Exec) srVar(x ast.Expr) *types.Var {
+	id, ok := ast.Unparen(x).(*ast.Ident)
+	if !ok {
+		return nil
+	}
+	o, ok := ex.info().ObjectOf(id).(*types.Var)
+	if !ok || !ex.isSR(o) {
+		return nil
+	}
+	return o
+}
+
+func (ex *Exec) srKey(o *types.Var, f *types.Var) string {
+	k := ex.keyOf(o) + "." + f.Name()
+	if _, ok := ex.keyType[k]; !ok {
+		ex.keyType[k] = f.Type()
+	}
+	return k
+}
+
+func (ex *Exec) srGet(st *State, o *types.Var, f *types.Var) *T {
+	k := ex.srKey(o, f)
+	if t, ok := st.env[k]; ok {
+		return t
+	}
+	t := ex.fresh("free."+o.Name()+"."+f.Name(), sortOf(f.Type()))
+	ex.rawFact(ex.typeFact(f.Type(), t))
+	st.env[k] = t
+	return t
+}
+
+// srAssemble builds a value handle from the field entries.
+func (ex *Exec) srAssemble(st *State, o *types.Var) *T {
+	s := structOf(o.Type())
+	h := ex.fresh("sr."+o.Name(), SInt)
+	for i := 0; i < s.NumFields(); i++ {
+		f := s.Field(i)
+		ex.rawFact(Eq(ex.vfield(h, o.Type(), f), ex.srGet(st, o, f)))
+	}
+	return h
+}
+
+// srExplode assigns a whole struct value to the field entries.
+func (ex *Exec) srExplode(o *types.Var, h *T) {
+	s := structOf(o.Type())
+	for i := 0; i < s.NumFields(); i++ {
+		f := s.Field(i)
+		ex.st.env[ex.srKey(o, f)] = ex.vfield(h, o.Type(), f)
+	}
+}
